@@ -69,6 +69,11 @@ RetConnErr(i) ==             \* connection error, promptly after the loss
    /\ st' = [st EXCEPT ![i] = "ret"]
    /\ UNCHANGED <<key, where, released, recv, ans, handed, lost, lostAt, stale, devs, closing>>
 
+RetRefused(i) ==             \* a caller that arrived after the loss: its own reconnect attempt was refused
+   /\ st[i] = "called" /\ (lost \/ closing) /\ where[i] = "none"     \* nothing of it was ever queued or sent
+   /\ st' = [st EXCEPT ![i] = "ret"]
+   /\ UNCHANGED <<key, where, released, recv, ans, handed, lost, lostAt, stale, devs, closing>>
+
 (* named deviations of the pinned implementation (known findings); each records itself *)
 Dev(i, name) == /\ st[i] = "called" /\ st' = [st EXCEPT ![i] = "ret"]
                 /\ devs' = devs \cup {name}
